@@ -37,7 +37,6 @@ func newRunner(seed int64, modules []string, rep *lib.Report) *runner {
 		v := m.view()
 		r.pre = append(r.pre, v)
 		m.view0 = v.coq()
-		m.prev = m.view0
 		m.initArg = fmt.Sprintf("%d %d %d %s %d %s %d", v.Height, int64(r.w.c.Ctx.BlockTime().Sub(lib.GenesisTime).Seconds()),
 			r.w.ubtime, v.Threshold, v.Multiple, v.Fraction, v.Window)
 	}
@@ -51,13 +50,7 @@ func (r *runner) do(op Op) (class int) {
 	for _, a := range res {
 		m := r.w.mods[a.mod]
 		post := m.view()
-		vs := post.coq()
-		ov := "None"
-		if vs != m.prev {
-			ov = "(Some " + vs + ")"
-			m.prev = vs
-		}
-		m.steps = append(m.steps, fmt.Sprintf("(%s, %d, %s)", a.coqOp, a.class, ov))
+		m.steps = append(m.steps, fmt.Sprintf("(%s, %d, %s)", a.coqOp, a.class, post.deltas(r.pre[a.mod])))
 		m.nsteps++
 		r.rep.Count("op=" + op.K + fmt.Sprintf("/class=%d", a.class))
 		var vio []violation
